@@ -6,6 +6,7 @@ All amounts are `Int` attos; `T` = XRD in the validator's stake vault, `S` = sta
 -/
 import RadixModel.Model.Staking
 import RadixModel.Lemmas.Staking
+import RadixModel.Lemmas.StakingEmission
 
 namespace Radix.Staking
 
@@ -157,7 +158,54 @@ theorem prefix_antitone {a b : Int} {pa pb : Nat} (ha : 0 ≤ a) (hab : a ≤ b)
 example : sortPrefix (250000 * ONE) = some 65533 := by decide
 example : sortPrefix (99999 * ONE) = some 65535 := by decide
 
-/-! ## 3. The next validator set: registered validators with non-zero stake, by stake, bounded -/
+/-! ## 3. Emissions and rewards -/
+
+/-- The emissions computed for a concluded epoch (every validator's
+`effective_stake * (E / Σ stake)`, all truncations as in the code) are non-negative and sum to at
+most the configured `total_emission_xrd_per_epoch`; this sum is exactly what `epoch_change` mints. -/
+theorem emission_total_le_config {E minRel : Int} {set : List Member} {r : List (Member × Int × Int)}
+    (h : emissions E minRel set = some r) (hE : 0 ≤ E) :
+    sumList (r.map (fun x => x.2.2)) ≤ E ∧ ∀ x ∈ r, 0 ≤ x.2.2 :=
+  emissions_le_config h hE
+
+example : emissions 10000000000000000000 200000000000000000
+    [{ label := 0, stake := 500 * ONE, made := 1, missed := 3 }, { label := 1, stake := 500 * ONE, made := 4, missed := 0 }]
+    = some [({ label := 0, stake := 500 * ONE, made := 1, missed := 3 }, 31250000000000000000, 312500000000000000),
+            ({ label := 1, stake := 500 * ONE, made := 4, missed := 0 }, 500 * ONE, 5000000000000000000)] := by decide
+
+/-- The same at the level of the epoch change of the state machine: the reported emissions sum to at
+most the configured amount. -/
+theorem epoch_emissions_le_config {s s' : Sys} {l : Nat} {gaps : List Nat} {ems : List (Nat × Int)}
+    (h : s.epochChange l gaps = .ok (s', ems)) (hE : 0 ≤ s.cfg.E) :
+    sumList (ems.map (fun x => x.2)) ≤ s.cfg.E := by
+  unfold Sys.epochChange at h
+  split at h
+  · cases h
+  · split at h
+    · cases h
+    · rename_i r hr
+      split at h
+      · cases h
+      · cases h
+        have := (emissions_le_config hr hE).1
+        rw [List.map_map]
+        exact this
+
+/-- Reward split (`as_proposer + effective_stake * ((vault - Σ proposer) / Σ effective)`): the total
+handed out is at most the rewards vault, when the recorded proposer rewards are covered by the vault.
+(The engine takes every reward out of the vault, so a violation would fail the transaction; the
+theorem shows the split itself never asks for more.) -/
+theorem rewards_total_le_vault {vault : Int} {l : List (Member × Int × Int)} {r : List (Member × Int)}
+    (h : rewards vault l = some r) (hl : ∀ x ∈ l, 0 ≤ x.2.1)
+    (hcov : sumList (l.map (fun x => x.2.2)) ≤ vault) :
+    sumList (r.map (fun x => x.2)) ≤ vault :=
+  rewards_le_vault h hl hcov
+
+example : rewards 1000 [({ label := 0, stake := 5, made := 0, missed := 0 }, 3 * ONE, 100),
+                        ({ label := 1, stake := 5, made := 0, missed := 0 }, 4 * ONE, 50)]
+    = some [({ label := 0, stake := 5, made := 0, missed := 0 }, 463), ({ label := 1, stake := 5, made := 0, missed := 0 }, 534)] := by decide
+
+/-! ## 4. The next validator set: registered validators with non-zero stake, by stake, bounded -/
 
 /-- `selectSet` keeps at most `maxV` entries, only entries of the index, ordered by stake descending. -/
 theorem select_bounded_subset_sorted (maxV : Nat) (index : List Entry) :
